@@ -469,6 +469,32 @@ void vf_harness(void) { SHA1* s; SHA1_end(s); VF_CANARY(); }
 )
 UNITS += [sha_end]
 
+# ---- Url::params(d): keys AND values are percent-encoded in component mode (so that & = + % inside them are data), then joined with & and =
+params_unit = Unit(
+    'Url_params_mode', 'C15',
+    cuts=[Cut('pm', HCPP, r'^String Url::params\(const Dic<>& q\)\s*$',
+              rules=[(r'Dic<> d;', '', 1), (r'foreach2\(String& k, const String& v, q\)', '', 1), (r'Url::encode\((\w+), true\)', r'ENC(\1, 1)', None), (r'Url::encode\((\w+), false\)', r'ENC(\1, 0)', None), (r'Url::encode\((\w+)\)', r'ENC(\1, 0)', None),
+                     (r'd\[([^;]*)\] = ([^;]*);', r'STORE(\1, \2);', 1), (r"return d\.join\('&', '='\);", 'return;', 1)])],
+    text=r'''
+#include "vf_base.h"
+typedef struct TV { int component_encoded; } TV;
+int g_stored;
+/* Url::encode(s, component): component == false leaves the query delimiters & = + / ? untouched (Http.cpp; unit Url_encode_decode_byte) */
+static TV ENC(TV s, int component) { TV r = { component }; return r; }
+static void STORE(TV k, TV v) { __CPROVER_assert(k.component_encoded && v.component_encoded, "names and values are encoded as URL components: a '&', '=' or '+' inside them must not reach the query string raw"); g_stored++; }
+void Url_params(TV k, TV v)
+__CPROVER_requires(g_stored == 0)
+__CPROVER_ensures(g_stored == 1)
+__CPROVER_assigns(g_stored)
+@@pm@@
+void vf_harness(void) { TV k = { 0 }, v = { 0 }; Url_params(k, v); VF_CANARY(); }
+''',
+    entry='Url_params',
+    desc='Url::params: every key and every value goes through Url::encode in component mode before being joined (parseQuery(params(d)) = d needs it for values containing & = +)',
+    functions=['Url::params'], trusted=['Url::encode modes (unit Url_encode_decode_byte)'],
+)
+UNITS += [params_unit]
+
 # replay: where the trace recipe of a unit does not reproduce (or there is none) the driver's battery runs on the real library: Base64/hex for every length 0..400 (RFC text,
 # round trip, whitespace interleaved), all malformed Base64 strings up to 6 characters over {A = - space LF /}, odd-length hex, percent-encoding of every byte in both modes,
 # parseQuery(params(d)) with reserved characters, SHA-1 for every length 0..260 against a FIPS 180-4 reference
